@@ -22,7 +22,7 @@ EXPLANATION = (
     'Decides the shape of the code for all inputs; does not decide that the '
     'tree is bit-identical after a refused call.')
 FLOORS = {'C08.a': 10, 'C08.b': 10, 'C08.c': 4, 'C08.d': 4, 'C08.e': 1,
-          'C08.f': 1, 'C08.g': 1}
+          'C08.f': 1, 'C08.g': 1, 'C08.h': 2}
 
 FILES = ['pyglove/core/symbolic/base.py', 'pyglove/core/symbolic/list.py',
          'pyglove/core/symbolic/dict.py', 'pyglove/core/symbolic/object.py',
@@ -546,6 +546,63 @@ def rule_f(ctx):
          '_sealed is not assigned from the argument')
 
 
+FLAG_WRITERS = {
+    S.SYMBOLIC + '.__init__': 'constructor',
+    S.SYMBOLIC + '.sym_seal': 'the seal setter',
+    S.SYMBOLIC + '.set_accessor_writable': 'the accessor-writable setter',
+    S.DICT + '.use_value_spec': 'dropping the value spec (use_value_spec(None)) re-opens accessor writes - documented',
+    S.LIST + '.use_value_spec': 'dropping the value spec (use_value_spec(None)) re-opens accessor writes - documented',
+}
+
+
+def rule_h(ctx):
+  """Who may change the protection flags: `_sealed` / `_accessor_writable` are
+  written only by the constructor, their setters and use_value_spec(None); and
+  no mutator drops the value spec on the way (Dict.clear parks the spec in a
+  local instead), because that silently re-enables accessor writes."""
+  idx = ctx.index
+  flags_ = ('_sealed', '_accessor_writable')
+  bad = []
+  n = 0
+  for rel in FILES:
+    m = idx.by_relpath.get(rel)
+    if m is None:
+      continue
+    for f in m.funcs.values():
+      for x in ast.walk(f.node):
+        hit = None
+        if isinstance(x, ast.Assign):
+          for t in x.targets:
+            d = A.dotted(t)
+            if d and d.startswith('self.') and d.split('.')[-1] in flags_:
+              hit = d.split('.')[-1]
+        elif isinstance(x, ast.Call) and (A.call_name(x) or '') in ('self._set_raw_attr', 'object.__setattr__', 'setattr'):
+          for a_ in x.args[:2]:
+            if A.const_str(a_) in flags_:
+              hit = A.const_str(a_)
+        if hit:
+          n += 1
+          if f.fq not in FLAG_WRITERS:
+            bad.append(f'{f.qualname} writes {hit} (line {x.lineno})')
+  ctx.ob('C08.h', 'protection-flag-writers', not bad and n >= 3,
+         'the sealed / accessor-writable flags are written only by the constructor, their setters and use_value_spec(None)',
+         'pyglove/core/symbolic/base.py:1', '; '.join(bad) or 'flag writers not found')
+  # no container mutator drops the spec
+  for cls_fq in (S.LIST, S.DICT):
+    c = idx.cls(cls_fq)
+    for name, f in sorted(c.methods.items()):
+      if name in ('use_value_spec', '__init__', '__setstate__', '_sym_clone'):
+        continue
+      calls = [x for x in A.calls_in(f.node) if (A.call_name(x) or '') == 'self.use_value_spec' and x.args
+               and isinstance(x.args[0], ast.Constant) and x.args[0].value is None]
+      if (A.has_call(f.node, lambda d: d == 'self.use_value_spec')):
+        ctx.ob('C08.h', f.fq, not calls,
+               'a mutator that re-applies the value spec never drops it with use_value_spec(None) (which would reset '
+               'accessor_writable to True for good)', f.loc,
+               f'use_value_spec(None) at line {calls[0].lineno if calls else 0}: after this call the object accepts accessor '
+               f'writes although it was created with accessor_writable=False')
+
+
 def rule_g(ctx):
   """Scoped overrides: each scope installs exactly its argument (None = no
   override) and its getter reads the same key."""
@@ -584,5 +641,6 @@ def run(ctx):
   rule_d(ctx)
   rule_e(ctx)
   rule_f(ctx)
+  rule_h(ctx)
   ctx.assume('user subclasses outside the repository are out of scope')
   ctx.assume('Object seal state mirrors its attribute container (checked by C08.f)')
